@@ -13,6 +13,7 @@ import (
 	"sort"
 	"strconv"
 	"strings"
+	"time"
 
 	"github.com/ipfs/go-graphsync/peermanager"
 	"github.com/libp2p/go-libp2p/core/peer"
@@ -110,10 +111,17 @@ type proc struct {
 
 func (f *proc) Startup() { f.started = true }
 
+// one call of Shutdown() by the manager
+type shutCall struct {
+	f   *proc
+	rel chan struct{}
+}
+
 func (f *proc) Shutdown() {
 	f.pending = true
-	f.e.arrive <- f
-	<-f.rel
+	c := &shutCall{f: f, rel: make(chan struct{})}
+	f.e.arrive <- c
+	<-c.rel
 	f.pending = false
 	f.shutdown = true
 }
@@ -121,7 +129,7 @@ func (f *proc) Shutdown() {
 type env struct {
 	pm      *peermanager.PeerManager
 	procs   []*proc
-	arrive  chan *proc
+	arrive  chan *shutCall
 	release chan struct{}
 	blocked []*blockedCall
 	conns   map[int]int
@@ -129,6 +137,7 @@ type env struct {
 }
 
 type blockedCall struct {
+	call   *shutCall
 	f      *proc
 	done   chan struct{}
 	p      int
@@ -154,7 +163,7 @@ func Run(cases []reg.Case, out *reg.Out) {
 }
 
 func runCase(c reg.Case, out *reg.Out) {
-	e := &env{arrive: make(chan *proc), release: make(chan struct{}), conns: map[int]int{}}
+	e := &env{arrive: make(chan *shutCall), release: make(chan struct{}), conns: map[int]int{}}
 	e.pm = peermanager.New(context.Background(), func(ctx context.Context, p peer.ID, onShutdown func(peer.ID)) peermanager.PeerHandler {
 		pi := -1
 		fmt.Sscanf(string(p), "verif-peer-%d", &pi)
@@ -209,10 +218,13 @@ func runCase(c reg.Case, out *reg.Out) {
 			case <-bc.done:
 				finishedDisc = bc
 				out.Cov("disc.returned")
-			case f := <-e.arrive:
-				bc.f = f
+			case c := <-e.arrive:
+				bc.f = c.f
+				bc.call = c
 				e.blocked = append(e.blocked, bc)
 				out.Cov("disc.in-shutdown")
+			case <-time.After(10 * time.Second):
+				out.Fail("watchdog", "Disconnected(%d) neither returned nor called Shutdown()", arg)
 			}
 		case op[0] == "shutret" && len(op) == 1:
 			if len(e.blocked) > 0 {
@@ -225,7 +237,7 @@ func runCase(c reg.Case, out *reg.Out) {
 				}
 				bc := e.blocked[k]
 				e.blocked = append(e.blocked[:k:k], e.blocked[k+1:]...)
-				bc.f.rel <- struct{}{}
+				bc.call.rel <- struct{}{}
 				<-bc.done
 				finishedDisc = bc
 			}
@@ -323,7 +335,7 @@ func runCase(c reg.Case, out *reg.Out) {
 	for len(e.blocked) > 0 {
 		bc := e.blocked[0]
 		e.blocked = e.blocked[1:]
-		bc.f.rel <- struct{}{}
+		bc.call.rel <- struct{}{}
 		<-bc.done
 	}
 }
